@@ -248,3 +248,56 @@ end
 
 end PsdTri
 end Clarabel
+
+/-! ### round 5: `update_scaling` as a whole, the LAPACK results (failures included) as a parameter -/
+namespace Clarabel
+namespace PsdTri
+
+open PsdIndex (triangularNumber)
+
+/-- what the three LAPACK calls of `update_scaling` report; `none` = the call returned `Err`
+(`?potrf` / `?gesdd` with `info ≠ 0`) -/
+structure LapackOut (α : Type) where
+  /-- `f.chol1.factor(S)`: the factor `L1`, column-major `n × n` -/
+  chol1 : Option (Array α)
+  /-- `f.chol2.factor(Z)`: the factor `L2` -/
+  chol2 : Option (Array α)
+  /-- `f.SVD.factor(L2ᵀ·L1)`: `U`, `Vt`, `σ`; only reached when both Cholesky calls succeeded -/
+  svd : Option (Array α × Array α × Array α)
+
+section
+variable {α : Type} [Add α] [Mul α] [Sub α] [Div α] [Neg α] [OfNat α 0] [OfNat α 1] [LT α]
+  [DecidableLT α] [FloatLike α]
+
+/-- `PSDTriangleCone::update_scaling(s, z, μ, strategy)` (μ and the strategy are not read):
+returns `is_scaling_success` and the scaling state the cone is left with.
+
+    if s.is_empty() { return true }
+    svec_to_mat(S, s); svec_to_mat(Z, z);
+    let c1 = chol1.factor(S); let c2 = chol2.factor(Z);      // both are always attempted
+    if c1.is_err() || c2.is_err() { return false }
+    tmp = L2ᵀ·L1;
+    if SVD.factor(tmp).is_err() { return false }             // `.expect("SVD error")` before e0ffbac
+    … assemble λ, Λisqrt, R, Rinv, Hs …                      // `assembleScaling`
+    true
+
+Every write to `λ, Λisqrt, R, Rinv, Hs` comes after the last LAPACK call, so a failed update
+leaves the scaling state as it was (the work matrices and the engines' buffers, which are not
+part of `Cone`, are overwritten).  `svec_to_mat` on vectors of the wrong length is outside the
+model (`unmodelled-size`). -/
+def updateScaling (K : Cone α) (s z : Array α) (lap : LapackOut α) : MErr (Bool × Cone α) := do
+  if s.isEmpty then return (true, K)
+  sizeGuard (s.size == triangularNumber K.n && z.size == triangularNumber K.n)
+  match lap.chol1, lap.chol2 with
+  | some L1, some L2 =>
+    match lap.svd with
+    | none => pure (false, K)
+    | some (U, Vt, sig) =>
+      let (K', _) ← assembleScaling K.n L1 L2 U Vt sig
+      pure (true, K')
+  | _, _ => pure (false, K)
+
+end
+
+end PsdTri
+end Clarabel
